@@ -591,3 +591,17 @@ package lua
 //@ ensures  old(nargs(L)) == 1 ==> exists r int :: 1 <= r && r <= old(f2i(num(arg(L, 1)))) && pushed(L, 0) == mkNum(i2f(r))
 //@ ensures  old(nargs(L)) >= 2 ==> exists r int :: old(f2i(num(arg(L, 1)))) <= r && r <= old(f2i(num(arg(L, 2)))) && pushed(L, 0) == mkNum(i2f(r))
 //@ modifies L.reg.array, L.reg.top, L.reg.array[*]
+
+// table.sort comparator: "calls lt only with elements of t" and uses the truth value of its first result
+//@ trusted lessThan [C04 C18]
+//@ assume lessThan: contract to be verified under C04
+//@ modifies everything
+
+//@ func (lValueArraySorter).Less [C18]
+//@ requires lv.Fn != nil && lv.L != nil && Inv_api(lv.L) && 0 <= i && i < len(lv.Values) && 0 <= j && j < len(lv.Values)
+//@ requires arrid(lv.Values) != arrid(lv.L.reg.array)
+//@ ensures  "one-call": ncalls() == old(ncalls()) + 1 && callfn(old(ncalls())) == fnid("(*LState).Call") && callargInt(old(ncalls()), 1) == 2 && callargInt(old(ncalls()), 2) == 1
+//@ ensures  "operands": callargLV(old(ncalls()), 10) == mkFn(lv.Fn) && callargLV(old(ncalls()), 11) == old(lv.Values[i]) && callargLV(old(ncalls()), 12) == old(lv.Values[j])
+//@ ensures  "truth-value": result == truthy(callresLV(old(ncalls()), 10))
+//@ ensures  top(lv.L) == old(top(lv.L))
+//@ modifies everything
